@@ -291,6 +291,9 @@ def euler(ai, bi, select, b1950=False, dtype="f8"):
     (w,) = np.where(b > 1.0)
     if w.size > 0:
         b[w] = 1.0
+    (w,) = np.where(b < -1.0)
+    if w.size > 0:
+        b[w] = -1.0
     bo = arcsin(b) * R2D
 
     a = arctan2(ctheta[i] * cbsa + stheta[i] * sb, cb * cos(a))
